@@ -562,8 +562,10 @@ solo_results (void)
 /* first use of an object with arbitrary contents (only 'initialized' cleared, as crypt(3) allows): every method x 16
    alignments x 4 fills x crypt_rn / crypt_r / crypt_ra on a caller's block, against the answer on a zeroed aligned object */
 static void
-first_use (int m, int align, int fill)
+first_use (int m, int align, int fill4)
 {
+  /* both canonical settings of the method: with and without the terminating '$' / hash part */
+  int which = fill4 >> 2, fill = fill4 & 3;
   static unsigned char *arena;
   static struct crypt_data *Z;
   if (!arena)
@@ -571,7 +573,7 @@ first_use (int m, int align, int fill)
       arena = aligned_alloc (64, OBJSZ + 64);
       Z = aligned_alloc (64, OBJSZ);
     }
-  const char *S = (m == M_YESCRYPT || m == M_GOST || m == M_SCRYPT) ? vh_cheap[m][1] : vh_cheap[m][0];
+  const char *S = vh_cheap[m][which];
   const char *P = "first use of this object";
   char want[CRYPT_OUTPUT_SIZE], sig[200];
   memset (Z, 0, OBJSZ);
@@ -600,7 +602,7 @@ first_use (int m, int align, int fill)
         {
           snprintf (sig, sizeof sig, "first use of a non-zero object gives a different answer/method=%s", vh_methods[m].name);
           vh_viol (sig, "{\"method\":\"%s\",\"entry\":\"%s\",\"alignment\":%d,\"fill\":%d,\"setting\":%s,\"result\":%s,\"on_zeroed_object\":%s,\"replay\":\"F%d:%d:%d\"}",
-                   vh_methods[m].name, ep == 0 ? "crypt_rn" : ep == 1 ? "crypt_r" : "crypt_ra", align, fill, vh_jstr (S), vh_jstr (r), vh_jstr (want), m, align, fill);
+                   vh_methods[m].name, ep == 0 ? "crypt_rn" : ep == 1 ? "crypt_r" : "crypt_ra", align, fill, vh_jstr (S), vh_jstr (r), vh_jstr (want), m, align, fill4);
           free (blk);
           return;
         }
@@ -674,7 +676,7 @@ main (int argc, char **argv)
     uint64_t fidx = 0;
     for (int m = 0; m < M_COUNT; m++)
       for (int al = 0; al < 16; al++)
-        for (int fi = 0; fi < 4; fi++)
+        for (int fi = 0; fi < 8; fi++)
           if (vh_mine (fidx++) && !(vh_replay && *vh_replay))
             first_use (m, al, fi);
     restore (pristine, pristine_err);
